@@ -13,7 +13,7 @@
   accesses are `SL.Acc` (`accValue`); the k-th load returns the k-th number of the stream, reduced to the
   width of the location it reads (`typedInp`: the identity on a well-typed stream).
 -/
-import ClockBound.Proofs.RsSeqlock
+import ClockBound.Proofs.RsSnapshot
 import ClockBound.Properties.SeqlockProg
 namespace ClockBound.CodeTieSeqlock
 open ClockBound ClockBound.Rs ClockBound.Generated ClockBound.Rs.DictShm ClockBound.Rs.EmbedShm
